@@ -1,5 +1,7 @@
 import PyGam.Proofs.Loop
 import PyGam.Gen.Tables
+import PyGam.Gen.Formulas
+import PyGam.Model.Stats
 /-!
 # C20 — the optimiser loop terminates, stops at `tol` and logs one record per iteration
 
@@ -371,5 +373,18 @@ theorem gen_hook_variables :
 
 /-- the callback registry of the source is the one modelled by `Builtin` -/
 theorem gen_callback_names : Gen.callbackNames = some ["accuracy", "coef", "deviance", "diffs"] := by decide
+
+/-- **what the built-in Deviance callback logs** (translated from `callbacks.Deviance.on_loop_start` on every run): the
+*unscaled*, unweighted total deviance of the family at the means handed to the hook — `Obs.dev` of the loop model.  In
+particular it does not depend on the distribution's scale: a user-supplied `scale` changes nothing in `logs_['deviance']`. -/
+theorem gen_formula_callback_deviance {α : Type} [Zero α] [One α] [Add α] [Sub α] [Mul α] [Div α] [Neg α] [LE α] [LT α]
+    [DecidableLE α] [DecidableLT α] [HasLogSqrt α] (fam : Family) (levels scale : α) (n : Nat) (y mu : Nat → α) :
+    Gen.callback_deviance (fun y mu w scaled => deviance fam levels scale scaled w y mu) n y mu
+      = Stats.totalDeviance fam levels scale false n (fun _ => 1) y mu := rfl
+
+theorem logged_deviance_scale_free {α : Type} [Zero α] [One α] [Add α] [Sub α] [Mul α] [Div α] [Neg α] [LE α] [LT α]
+    [DecidableLE α] [DecidableLT α] [HasLogSqrt α] (fam : Family) (levels s₁ s₂ : α) (n : Nat) (y mu : Nat → α) :
+    Gen.callback_deviance (fun y mu w scaled => deviance fam levels s₁ scaled w y mu) n y mu
+      = Gen.callback_deviance (fun y mu w scaled => deviance fam levels s₂ scaled w y mu) n y mu := rfl
 
 end PyGam.C20
